@@ -1,0 +1,97 @@
+//go:build verif
+
+package outbox
+
+// Contracts checked by /verif/gocv (comment-only file; see /verif/DESIGN.md §3).
+//
+// C21, read-your-writes. A method of the outbox storage touches the inner storage only after the queued entries that
+// can affect what it reads or writes have been replayed: the wait it performs first must cover that scope and must
+// have succeeded. Instantiated over the whole method set of storage.Storage, so a method that is added or only
+// inherited later is judged as well.
+//
+//   object calls (bucket + key; reads, writes, multipart, tagging, transition)  -> entries of that bucket and key, incl. global ones
+//   copies                                                                      -> ... of the source AND of the destination
+//   listings of a bucket, DeleteObjects, versioning changes                     -> every entry of the bucket
+//   other bucket-scoped calls (bucket metadata and configuration)               -> at least the global entries of the bucket
+//   ListBuckets                                                                 -> the global entries
+//
+// (The two unguarded reads of the versioning status that decide whether a put / delete may be queued are excluded:
+// PutBucketVersioningConfiguration drains the whole bucket, so the inner status is never behind a queued entry.)
+
+//@ methods os *outboxStorage of storage.Storage
+//@ mode effects
+//@ effect[C21:object-call-after-the-keys-entries-drained] every os.innerStorage.$M(_, storage.BucketName($b), storage.ObjectKey($k), __) if $M != "CopyObject" && $M != "UploadPartCopy"
+//@     needs before os.waitForAllOutboxEntriesOfBucketAndKeyIncludingGlobal(_, $wb, $wk) -> ($e)
+//@     where $e == nil && $wb == $b && $wk == $k
+//@ effect[C21:copy-after-source-and-destination-drained] every os.innerStorage.$M(_, storage.BucketName($sb), storage.ObjectKey($sk), storage.BucketName($db), storage.ObjectKey($dk), __)
+//@     needs before os.waitForAllOutboxEntriesOfBucketAndKeyIncludingGlobal(_, $wb, $wk) -> ($e)
+//@     needs before os.waitForAllOutboxEntriesOfBucketAndKeyIncludingGlobal(_, $wb2, $wk2) -> ($e2)
+//@     where $e == nil && $wb == $sb && $wk == $sk && $e2 == nil && $wb2 == $db && $wk2 == $dk
+
+//@ methods os *outboxStorage of storage.Storage in ListObjects ListObjectVersions DeleteObjects PutBucketVersioningConfiguration
+//@ mode effects
+//@ effect[C21:bucket-wide-call-after-the-bucket-drained] every os.innerStorage.$M(_, storage.BucketName($b), __) if $M != "GetBucketVersioningConfiguration"
+//@     needs before os.waitForAllOutboxEntriesOfBucket(_, $wb) -> ($e)
+//@     where $e == nil && $wb == $b
+
+// (Multipart uploads are never queued - every multipart call writes through after draining its key - so the upload
+// listing only has to wait for the global entries, like the bucket metadata calls.)
+//@ methods os *outboxStorage of storage.Storage in HeadBucket ListMultipartUploads GetBucketVersioningConfiguration GetBucketWebsiteConfiguration PutBucketWebsiteConfiguration DeleteBucketWebsiteConfiguration GetBucketCORSConfiguration PutBucketCORSConfiguration DeleteBucketCORSConfiguration GetBucketLifecycleConfiguration PutBucketLifecycleConfiguration DeleteBucketLifecycleConfiguration GetBucketNotificationConfiguration PutBucketNotificationConfiguration
+//@ mode effects
+//@ effect[C21:bucket-call-after-global-entries-drained] every os.innerStorage.$M(_, storage.BucketName($b), __)
+//@     needs before os.waitForGlobalOutboxEntriesOfBucket(_, $wb) -> ($e)
+//@     where $e == nil && $wb == $b
+
+//@ func (*outboxStorage).ListBuckets
+//@ mode effects
+//@ effect[C21:bucket-list-after-global-entries-drained] every os.innerStorage.ListBuckets(_) needs before os.waitForGlobalOutboxEntries(_) -> ($e) where $e == nil
+
+// C21, convergence: what is queued is what was accepted, and the replay hands exactly the stored fields back to the
+// inner storage; an entry is finalized (removed from the queue) only after its inner call succeeded.
+
+// The queue entry carries the operation, bucket, key, version id and content type it was given and is written through
+// the caller's SQL transaction under this outbox.
+//@ func (*outboxStorage).storeStorageOutboxEntry
+//@ mode effects
+//@ effect[C21:entry-carries-the-accepted-call] every os.storageOutboxEntryRepository.SaveStorageOutboxEntry(_, $s, $id, $e)
+//@     needs before tx.SqlTx() -> ($r)
+//@     where $s == $r && $id == os.outboxId && $e != nil && $e.Operation == operation && $e.Bucket == bucketName && $e.Key == key && $e.VersionID == versionID && $e.ContentType == contentType
+
+// A delete that is queued is queued for the key and version id of the call, in a transaction of the outbox database.
+//@ func (*outboxStorage).DeleteObject$1
+//@ mode effects
+//@ effect[C21:queued-delete-names-the-call] every os.storeStorageOutboxEntry(_, $t, $op, $b, $k, $ct, $v)
+//@     where $t == tx && $op == storageOutboxEntry.DeleteObjectStorageOperation && $b == bucketName && $k == key.String() && $ct == nil && $v == versionID
+
+// Replay: each inner call is made with the fields of the claimed entry, and the entry is finalized only after the
+// inner call returned without error.
+//@ func (*outboxStorage).maybeProcessOutboxEntries
+//@ mode effects
+//@ effect[C21:replayed-put-uses-the-stored-fields] every os.innerStorage.PutObject(_, $b, $k, $ct, _, _, $o)
+//@     needs before os.claimNextOutboxEntry(_) -> ($e, $c, $err) needs before os.readStorageOutboxPutOptions(_, $pe) -> ($po, $perr)
+//@     where $err == nil && $c && $e != nil && $b == $e.Bucket && $k.String() == $e.Key && $ct == $e.ContentType && $e.Operation == storageOutboxEntry.PutObjectStorageOperation && $o == $po && $perr == nil
+//@ effect[C21:replayed-delete-uses-the-stored-fields] every os.innerStorage.DeleteObject(_, $b, $k, $o)
+//@     needs before os.claimNextOutboxEntry(_) -> ($e, $c, $err)
+//@     where $err == nil && $c && $e != nil && $b == $e.Bucket && $k.String() == $e.Key && $e.Operation == storageOutboxEntry.DeleteObjectStorageOperation &&
+//@         (($e.VersionID == nil && $o == nil) || ($e.VersionID != nil && $o != nil && $o.VersionID == $e.VersionID))
+//@ effect[C21:replayed-bucket-call-uses-the-stored-bucket] every os.innerStorage.$M(_, storage.BucketName($b)) if $M == "CreateBucket" || $M == "DeleteBucket"
+//@     needs before os.claimNextOutboxEntry(_) -> ($e, $c, $err)
+//@     where $err == nil && $c && $e != nil && $b == $e.Bucket && (($M == "CreateBucket" && $e.Operation == storageOutboxEntry.CreateBucketStorageOperation) || ($M == "DeleteBucket" && $e.Operation == storageOutboxEntry.DeleteBucketStorageOperation))
+//@ effect[C21:finalized-only-after-success] every os.finalizeStorageOutboxEntry(_, $fe) where err == nil
+
+// Frame contracts (the replay relies on them between the claim and the inner call): loading the chunks and the put
+// options of an entry does not modify the entry.
+//@ func (*outboxStorage).readStorageOutboxChunks
+//@ property C21
+//@ mode effects
+//@ frame
+
+//@ func (*outboxStorage).readStorageOutboxPutOptions
+//@ property C21
+//@ mode effects
+//@ frame
+
+// The heartbeat goroutine only reads entry.Id (by reading; goroutine bodies are not executed by the verifier).
+//@ func (*outboxStorage).startStorageOutboxHeartbeat
+//@ property C21
+//@ trusted
